@@ -52,7 +52,10 @@ class Contract:
                  no_raise: bool = True, assume_repo_requires: bool = True, prove_repo_ensures: bool = True,
                  use_as_callee: bool = True, max_paths: int = 4000, facts: Optional[List[str]] = None,
                  note: str = "", allow_sym_writes: bool = False, inline_depth: int = 8,
-                 replay: Optional[str] = None, expect_paths: int = 1, ob_timeout_ms: Optional[int] = None):
+                 replay: Optional[str] = None, expect_paths: int = 1, ob_timeout_ms: Optional[int] = None,
+                 assumed: bool = False, justification: str = ""):
+        self.assumed = assumed  # trusted contract of a function outside the verifier's reach: never "proved"
+        self.justification = justification
         self.target = target
         self.props = [prop] if isinstance(prop, str) else list(prop)
         self.args = args or {}
